@@ -13,6 +13,8 @@ import shutil
 import sqlite3
 import sys
 import tempfile
+import threading
+import time
 import warnings as pywarnings
 
 from .. import env, util
@@ -85,7 +87,14 @@ class BrokenTextSink(object):
             raise broken_pipe_error(self.k)
 
     def close(self):
-        pass
+        # what close() of a real stream does: a last flush, which fails like any write once the consumer is gone (or goes away just then)
+        self.calls += 1
+        if self.faulted:
+            self.calls_after_fault += 1
+            raise broken_pipe_error(self.k)
+        if self.k is not None and self.calls >= self.k:
+            self.faulted = True
+            raise broken_pipe_error(self.k)
 
 
 class BrokenRawSink(io.RawIOBase):
@@ -114,7 +123,7 @@ class BrokenRawSink(io.RawIOBase):
         return len(b)
 
 
-def run_with_sink(ns, qtext, A, B, a_names, sink, encoding, big=False):
+def run_with_sink(ns, qtext, A, B, a_names, sink, encoding, big=False, close_on_finish=False):
     """-> (exception or None, reads after fault, probe iterator)"""
     PI, PW, PR = boundary.probes(ns)
     log = boundary.Log()
@@ -139,7 +148,7 @@ def run_with_sink(ns, qtext, A, B, a_names, sink, encoding, big=False):
     exc = None
     w = None
     try:
-        w = ns.csv.CSVWriter(sink, False, encoding, ',', 'quoted')
+        w = ns.csv.CSVWriter(sink, close_on_finish, encoding, ',', 'quoted')
         ns.rbql.query(qtext, it, w, [], reg)
     except BaseException as e:   # noqa
         exc = e
@@ -171,14 +180,18 @@ def leg_broken_pipe(ns, res, spec):
                 full = (''.join(sink0.accepted) if encoding is None else b''.join(sink0.accepted))
                 total_calls = sink0.calls
                 ks = range(1, total_calls + 2) if total_calls <= 40 else sorted(set([1, 2, 3, total_calls // 2, total_calls - 1, total_calls, total_calls + 1] + [rng.randrange(1, total_calls) for _ in range(6)]))
-                for k in ks:
+                # the writer that owns its stream (close_stream_on_finish, what query_csv passes for an output path) closes it in finish(): the last flush
+                # happens inside close() then, and may be the first one to find the consumer gone
+                for k, close_on_finish in [(k_, False) for k_ in ks] + [(k_, True) for k_ in list(ks)[:3] + list(ks)[-3:]]:
                     sink = BrokenTextSink(k) if encoding is None else BrokenRawSink(k)
-                    exc, reads_after, w = run_with_sink(ns, qtext, A, B3 if 'join' in name else None, names, sink, encoding)
+                    exc, reads_after, w = run_with_sink(ns, qtext, A, B3 if 'join' in name else None, names, sink, encoding, close_on_finish=close_on_finish)
                     res.evaluations += 1
                     res.count('broken_pipe_runs')
+                    if close_on_finish:
+                        res.count('broken_pipe_runs_writer_closes_stream')
                     res.count('broken_pipe:%s' % ('text' if encoding is None else 'bytes'))
                     res.distinct_disjoint += 1
-                    case = {'leg': 'pipe', 'shape': name, 'query_text': qtext, 'k': k, 'encoding': encoding, 'big': big}
+                    case = {'leg': 'pipe', 'shape': name, 'query_text': qtext, 'k': k, 'encoding': encoding, 'big': big, 'close_on_finish': close_on_finish}
                     if exc is not None:
                         res.violation('py:broken-pipe-escapes:' + name, '[py] pipe broken at write %d of %d (%s, %s): %s escaped from rbql.query: %s' % (k, total_calls, qtext, encoding, type(exc).__name__, str(exc)[:100]), case)
                         continue
@@ -582,6 +595,12 @@ DESCRIPTOR_SCENARIOS = [
     ('output-in-missing-directory', 'select a1, a2', 'bad-output:missing-dir'),
     ('output-path-is-a-directory', 'select a1, b2 join jn_1.csv on a1 == b1', 'bad-output:is-dir'),
     ('output-in-missing-directory-failing-query', 'select int(a2)', 'bad-output:missing-dir'),
+    # the output path is a named pipe whose reader takes a few bytes and goes away: the query ends quietly (broken pipe), and the file is closed all the same
+    ('output-fifo-reader-goes-away', 'select *', 'fifo'),
+    ('output-fifo-reader-goes-away-sorted', 'select a2, a1 order by a1 desc', 'fifo'),
+    ('output-fifo-reader-goes-away-update', 'update a2 = a1 + "!"', 'fifo'),
+    # ... and a reader that leaves at once while the whole output still sits in the writer's buffers: the first flush is the one inside close()
+    ('output-fifo-reader-leaves-at-once', 'select a1, a2', 'fifo-small'),
 ]
 
 
@@ -594,6 +613,9 @@ def leg_descriptors(ns, res, spec):
             f.write(b'a,1\nb,x\nb,3\nzz,4\n')
         with open(bad_inp, 'wb') as f:
             f.write(b'a,1\nb,\xff\n')
+        big_inp = os.path.join(d, 'in_big.csv')
+        with open(big_inp, 'wb') as f:
+            f.write(b''.join(b'key%d,value %d of a table large enough to fill every buffer between the writer and a reader that left\n' % (i % 50, i) for i in range(6000)))
         with open(os.path.join(d, 'jn_1.csv'), 'wb') as f:
             f.write(b'b,J1\nb,J2\na,J3\n')
         with open(os.path.join(d, 'jn_bad.csv'), 'wb') as f:
@@ -624,6 +646,22 @@ def leg_descriptors(ns, res, spec):
                         outp = os.path.join(d, 'no', 'such', 'dir', 'out.csv')
                     elif expect == 'bad-output:is-dir':
                         outp = d
+                    reader = None
+                    if expect in ('fifo', 'fifo-small'):
+                        src = big_inp if expect == 'fifo' else inp
+                        outp = os.path.join(d, 'out.fifo')
+                        if os.path.exists(outp):
+                            os.unlink(outp)
+                        os.mkfifo(outp)
+
+                        def take_a_little(path=outp, k=(10 if expect == 'fifo' else 0), pause=[0, 0.001, 0.01][rep % 3]):
+                            with open(path, 'rb') as f:
+                                if k:
+                                    f.read(k)
+                                    time.sleep(pause)
+                        reader = threading.Thread(target=take_a_little, daemon=True)
+                        reader.start()
+                        res.count('descriptor_runs_output_fifo')
                     fds0 = fd_count()
                     err = None
                     with pywarnings.catch_warnings(record=True) as caught:
@@ -634,6 +672,9 @@ def leg_descriptors(ns, res, spec):
                             err = util.error_class(e)
                         import gc
                         gc.collect()
+                    if reader is not None:
+                        reader.join(30)
+                        fds0 = fds0 if not reader.is_alive() else -1
                     del ns.csv.open
                     res.evaluations += 1
                     res.count('descriptor_runs')
@@ -654,9 +695,9 @@ def leg_descriptors(ns, res, spec):
                     exp_class = expect.rstrip('*').split('-')[0]
                     if expect.startswith('bad-output') and err is None:
                         res.violation('py:descriptor-scenario-did-not-fail:' + name, '[py] %r with an output path that cannot be opened did not fail' % (qtext,), case)
-                    if expect == 'ok' and err is not None:
+                    if expect in ('ok', 'fifo', 'fifo-small') and err is not None:
                         res.violation('py:descriptor-scenario-unexpected-error:' + name, '[py] %r raised %s' % (qtext, err), case)
-                    if expect not in ('ok', 'missing-input') and not expect.startswith('bad-output') and err is None and not (expect.endswith('*') and not with_headers):
+                    if expect not in ('ok', 'fifo', 'fifo-small', 'missing-input') and not expect.startswith('bad-output') and err is None and not (expect.endswith('*') and not with_headers):
                         res.violation('py:descriptor-scenario-did-not-fail:' + name, '[py] %r was expected to fail (%s)' % (qtext, expect), case)
             # sqlite front-end
             for qtext in ('select a1, a2', 'select int(a2)', 'select a1 where a2 = 1', 'select a1 +'):
@@ -744,7 +785,7 @@ def summarize(tier, seed, m):
     return {
         'rule': 'fault enumeration: for each of %d query shapes (streaming, WHERE, header, UPDATE, ORDER BY, TOP, GROUP BY, DISTINCT, DISTINCT COUNT, UNNEST, multi-match JOIN, LEFT JOIN star, None output) the output stream raises BrokenPipeError at every write index k in 1..writes+1 (text sink and raw byte sink behind the writer\'s TextIOWrapper; large outputs sampled), and a user writer returns False at every k; the same two fault enumerations over generated queries of every clause combination (C01-C05 generators, random tables); an invalid UTF-8 sequence at every offset x 7 sequences x 5 chunk sizes (Python reader) and x 6 deliveries x 2 policies through the JS bulk and stream readers, plus truncated sequences as the whole input or right after the last line break; CR / CRLF / LF files of up to 35 KiB whose line break ends exactly at, one before or one after a 1 / 2 / 8 / 16 / 24 KiB buffer boundary with the invalid byte 3, 700 or 5000 bytes later (stream and query_csv); the same invalid sequences with the table on standard input - in-process through a replaced sys.stdin whose own error handler is surrogateescape / replace / strict / ignore, and through the command line (stdin and --input) under LC_ALL=C, C.UTF-8, PYTHONUTF8=1, PYTHONIOENCODING=utf-8:replace / :strict, for queries that do and do not print the damaged cell; %d descriptor scenarios (success, parse / syntax / runtime / IO error, missing input, missing join table) x header flag with every file object opened by the CSV / sqlite front-ends tracked; the command line writing 30000 rows into a real OS pipe whose reader closes after N bytes (exit status 0, silent stderr, delivered bytes a prefix). distinct_nontrivial counts enumerated fault points.' % (len(SHAPES), len(DESCRIPTOR_SCENARIOS)),
         'exhaustive': True,
-        'required': ['js_bad_byte_runs:bulk', 'js_bad_byte_runs:stream', 'generated_false_runs', 'generated_pipe_runs', 'generated_faults_triggered', 'broken_pipe_runs', 'broken_pipe:text', 'broken_pipe:bytes', 'faults_triggered', 'writer_protocol_runs', 'bad_byte_runs', 'bad_byte_big_runs', 'bad_byte_after_boundary_break_runs', 'stdin_bad_byte_runs', 'cli_bad_byte_runs:stdin', 'cli_bad_byte_runs:file', 'records_delivered_before_decode_error', 'descriptor_runs', 'files_tracked', 'descriptor_runs_sqlite', 'real_pipe_runs'],
+        'required': ['js_bad_byte_runs:bulk', 'js_bad_byte_runs:stream', 'generated_false_runs', 'generated_pipe_runs', 'generated_faults_triggered', 'broken_pipe_runs', 'broken_pipe_runs_writer_closes_stream', 'descriptor_runs_output_fifo', 'broken_pipe:text', 'broken_pipe:bytes', 'faults_triggered', 'writer_protocol_runs', 'bad_byte_runs', 'bad_byte_big_runs', 'bad_byte_after_boundary_break_runs', 'stdin_bad_byte_runs', 'cli_bad_byte_runs:stdin', 'cli_bad_byte_runs:file', 'records_delivered_before_decode_error', 'descriptor_runs', 'files_tracked', 'descriptor_runs_sqlite', 'real_pipe_runs'],
         'assumptions': ['"promptly": no further stream write and at most one further input read after the pipe broke', 'set_header has no return value, so a pipe that breaks while the header line is written can only be noticed at the first data write (one further write attempt tolerated in that phase only); a buffering query (aggregates, ORDER BY, DISTINCT COUNT) issues that write after it has consumed its input, so the read bound is applied to faults at data writes', 'finish being (not) called on failing runs is not demanded'],
     }
 
